@@ -14,7 +14,7 @@ EXTENDS GoNamesCases, GoNamesVocab, Json
 
 CONSTANTS FieldVocab, OneofVocab, NestedVocab, EnumVocab, Levels, KindsAny, MaxAny, MaxPlain
 
-VARIABLE fs                                   \* sequence of [n |-> name, mem |-> BOOLEAN, rep |-> BOOLEAN]
+VARIABLE fs                                   \* sequence of [n |-> name, mem, rep, dflt |-> BOOLEAN] (dflt: see MC_GoNamesPkg)
 Init == fs = <<>>
 Used(f) == {f[i].n : i \in 1..Len(f)}
 AnyMem(f) == \E i \in 1..Len(f) : f[i].mem
@@ -24,15 +24,18 @@ Kinds(f) == IF Len(f) < MaxAny THEN KindsAny
 Next == \E x \in FieldVocab, k \in Kinds(fs) :
           /\ Codes(x) \notin Used(fs)
           /\ (k = "m" /\ AnyMem(fs)) => fs[Len(fs)].mem          \* the members of the oneof are declared consecutively
-          /\ fs' = Append(fs, [n |-> Codes(x), mem |-> (k = "m"), rep |-> (k = "r")])
+          /\ fs' = Append(fs, [n |-> Codes(x), mem |-> (k = "m"), rep |-> (k = "r"), dflt |-> FALSE])
 
 \* the declarations completed from a field list
 CasesOf(f) ==
   IF ~AnyMem(f)
-  THEN {[op |-> "msgnames", level |-> lv, fields |-> f, oname |-> <<>>, nested |-> <<>>, enums |-> <<>>] : lv \in Levels}
+  THEN {[op |-> "msgnames", level |-> lv, fields |-> f, oname |-> <<>>, nested |-> <<>>, enums |-> <<>>,
+         nfields |-> <<>>, evals |-> <<>>, exts |-> <<>>, tenum |-> <<>>] : lv \in Levels}
   ELSE LET on == {Codes(x) : x \in OneofVocab} \ Used(f)
            opt(V, taken) == {<<>>} \cup {<<Codes(x)>> : x \in {y \in V : Codes(y) \notin taken}}
-       IN UNION { UNION { { [op |-> "msgnames", level |-> lv, fields |-> f, oname |-> o, nested |-> ns, enums |-> es]
+           none(s) == IF s = <<>> THEN <<>> ELSE <<<<>>>>     \* (s holds at most one name) nested messages without fields, enums with the one default value
+       IN UNION { UNION { { [op |-> "msgnames", level |-> lv, fields |-> f, oname |-> o, nested |-> ns, enums |-> es,
+                              nfields |-> none(ns), evals |-> none(es), exts |-> <<>>, tenum |-> <<>>]
                             : es \in opt(EnumVocab, Used(f) \cup {o} \cup Range(ns)), lv \in Levels }
                           : ns \in opt(NestedVocab, Used(f) \cup {o}) }
                   : o \in on }
